@@ -1,4 +1,5 @@
 use crate::error::Error;
+use crate::number::Number;
 use crate::vm::vcell::VCell;
 use crate::vm::Vm;
 
@@ -41,7 +42,8 @@ impl Vm {
         };
         match (left, right) {
             (VCell::Bool(left), VCell::Bool(right)) => Ok(left == right),
-            (VCell::Number(left), VCell::Number(right)) => Ok(left == right),
+            (VCell::Number(left), VCell::Number(right)) => Ok(left == right
+                && matches!(left, Number::Float(_)) == matches!(right, Number::Float(_))),
             (VCell::Nil, VCell::Nil) => Ok(true),
             (VCell::Pair(_, _), VCell::Pair(_, _)) => Ok(left == right),
             (VCell::Char(left), VCell::Char(right)) => Ok(left == right),
